@@ -25,16 +25,22 @@ PROP = dict(
         quick="sort/issorted/median: all weak orders n<=6 (5316), all permutations n<=8 (46k), 9 structured letters x lengths "
               "{1,2,9,10,1000,2000}; MedianFilter orders 3..12 x init {0,-1,5} x every sequence over {0,1,2}^k k<=6 and every permutation "
               "of 1..7, 3 framings each; long streams 2000 samples (8-level LCG) orders 3..12,16,33,64 x 2 letters x 4 framings; "
-              "medfilt n 3..9 x every sequence over {-1,0,2}^L L<=6 + 7 letters x L<=12; corr: all pairs of permutations n<=5 and "
+              "every sequence over {0,1,2,3}^k k<=4; medfilt n 3..9 x every sequence over {-1,0,2}^L L<=6 + 7 letters x every (n, length) pair of "
+              "3..12 x 1..24; BIG sizes 70000 and 200000 elements (closed-form letters reversed ramp, two-valued, rotated ramp, ramp): sort both "
+              "directions + issorted + median, medfilt n in {3,8}, MedianFilter orders {5,16,33} (whole and 65537-sample blocks), Pearson and "
+              "Spearman in corr.large; corr: all pairs of permutations n<=5 and "
               "identity x all 5040 permutations n=7 (both sides), Pearson with 9 letter pairs (linear/cubic/exponential), Spearman, Kendall; "
               "every sort / median / MedianFilter / medfilt case above x 6 value maps {plain, r*1e-18, 1e-300*(r+1), 0.25+r*2^-54, "
-              "-(1+r*eps), r*1e300/8}; corr.large: n in {100,1000,1290,1291,1625,2000,2048,5000,20000} x {increasing linear, decreasing "
-              "linear, increasing cubic, decreasing exponential, 2 independent LCG permutation pairs} x Pearson/Spearman/Kendall",
-        thorough="as quick with MedianFilter orders + {16,33,64}, ternary streams k<=8, long streams 10^4 samples for every order 3..64, "
-                 "medfilt sequences L<=7, corr all pairs of permutations n<=6 (518k pairs per coefficient and letter pair) and all 25.4M pairs "
-                 "of permutations of length 7 for Pearson (linear x exponential letters), Spearman and Kendall; corr.large also n=100000 "
-                 "(Pearson, Spearman)"),
-    deadline=dict(quick=150, thorough=1500),
+              "-(1+r*eps), r*1e300/8}; corr.large: n in {100,1000,1290,1291,1625,2000,2048,5000,20000,70000,200000} (Kendall in this grid up to 20000) x {increasing linear, decreasing "
+              "linear, increasing cubic, decreasing exponential, 2 independent LCG permutation pairs} x Pearson/Spearman/Kendall; corr.kendall.big: Kendall at n = 65537 (both argument "
+              "orders) and n = 70000 with x[i]=i, y[i]=(7919*i) mod n and with a strictly decreasing relation",
+        thorough="as quick with all weak orders n<=8 (545835 at n=8), all permutations n<=10 (3.6M at n=10), each x 6 value maps and both "
+                 "directions; MedianFilter orders + {16,33,64}, ternary streams k<=10, quaternary streams k<=8, long streams 10^4 samples for "
+                 "every order 3..64, medfilt sequences L<=8 for n 3..12, corr all pairs of permutations n<=6 (518k pairs per coefficient and letter pair) and all 25.4M pairs "
+                 "of permutations of length 7 for Pearson (linear x exponential letters), Spearman and Kendall; length 8: identity, reversal and every 63rd permutation (641 x-permutations) x all "
+                 "40320 y-permutations for the three coefficients; corr.large also n in {65537, 100000, 1000003} (Pearson, Spearman); corr.kendall.big also "
+                 "n = 70000 in both orders, n = 100000 (both letters) and n = 200000"),
+    deadline=dict(quick=150, thorough=3000),
     assumptions=COMMON_ASSUME + [
         "median of an even window is the mean of the two middle elements (MATLAB/NumPy convention; the statement says 'true median')",
         "medfilt(x,n) window is x[j-n/2 .. j+n-1-n/2] with zeros outside (medfilt1 'zeropad' convention for odd and even n)",
@@ -42,7 +48,8 @@ PROP = dict(
         "collinear points, observed and reported, not judged a violation); symmetry tolerance 1e-12 as in the design; tie-free data only for corr",
         "sort stability is not part of the statement and not checked",
         "corr.large: references are O(n) long-double moments (Pearson), the exact integer closed form on O(n log n) ranks (Spearman) and a "
-        "merge-sort inversion count (Kendall); tolerance 16*n*eps*kappa for the moment formulas, 8 eps for Kendall; Kendall is not run "
-        "beyond n = 20000 (O(n^2) pair loop; its int pair counters exceed INT_MAX beyond n = 65536, outside the stated lengths)",
+        "64-bit merge-sort inversion count (Kendall, cross-checked against the O(n^2) definition for every n <= 2000; a mismatch aborts the "
+        "harness); tolerance 16*n*eps*kappa for the moment formulas, 8 eps for Kendall. The library's Kendall loop is O(n^2), so the 6-relation "
+        "grid runs Kendall up to n = 20000 only and corr.kendall.big adds a handful of calls beyond 65536 elements (pair counts above 2^31)",
     ],
 )
